@@ -173,10 +173,13 @@ class Goal:
 
 
 def _run_coqc(path, timeout):
+    """one coqc run; [timeout] limits the CPU seconds of the process (ulimit -t), so that a loaded machine does
+    not turn provable goals into 'undecided'; the wall clock is capped at 8 times that"""
     t0 = time.time()
     try:
-        r = subprocess.run("cd %s && timeout %d coqc -Q %s/coq MM %s 2>&1" % (os.path.dirname(path), timeout, ROOT, os.path.basename(path)),
-                           shell=True, capture_output=True, text=True, timeout=timeout + 10)
+        r = subprocess.run("cd %s && ulimit -t %d && timeout %d coqc -Q %s/coq MM %s 2>&1"
+                           % (os.path.dirname(path), timeout, 8 * timeout, ROOT, os.path.basename(path)),
+                           shell=True, capture_output=True, text=True, timeout=8 * timeout + 10)
         ok = r.returncode == 0
         out = r.stdout[-800:]
     except subprocess.TimeoutExpired:
